@@ -1,6 +1,7 @@
 package props
 
 import (
+	"bytes"
 	"encoding/base64"
 	"fmt"
 	"math/rand/v2"
@@ -390,7 +391,8 @@ func c02pipeline(r *core.Run) {
 			rg := r.Rand("pipe", name, i)
 			var ts []token
 			for len(ts) < 1+rg.IntN(6) {
-				if t, ok := g.gen(rg); ok {
+				// 0x1d (Ctrl-]) is the sentinel of the pipeline and cannot be content
+				if t, ok := g.gen(rg); ok && !bytes.Contains(t.b, []byte{0x1d}) {
 					ts = append(ts, t)
 				}
 			}
